@@ -11,10 +11,10 @@ import (
 
 func init() {
 	register(&propCheck{
-		id:    "C02",
-		level: "other",
+		id:          "C02",
+		level:       "other",
 		explanation: "The two structural halves of the zip-slip defence, decided on SSA for every path of the extraction code: (X1) sanitise-before-sink — every path argument of a mutating filesystem call in the call graph of (*VFS).unzip (MkDir, OpenFile for writing, Chtimes, Rm, the destination of the nested unzip, the keys of the directory time-stamp map) belongs to the least set D containing the caller's destination after filepath.Clean, result #0 of sanitiseZipExtractPath on its err==nil side, filepath.Dir(d), Join(Dir(d), FilepathStem(d)), determineUnzippedFilepath(d) for d in D provided X4 holds, and parameters of unexported callees all of whose call sites pass members of D; anything else reaching a sink (typically something derived from zip.File.Name) is reported with the offending value; (X2) the sanitiser accepts only contained paths — every non-error return of sanitiseZipExtractPath lies on the true side of a containment predicate on p = filepath.Join(destination, name): p == destination or strings.HasPrefix(p, destination + separator), and returns that p; (X4) the transcoder applied after sanitisation keeps a path in its directory — it returns its argument, or the argument's directory joined with the converted last element, that element having been tested to be a single path element other than '..'; (X3) its refusal carries the 'suspected malicious intent' kind and unzip hands that error back unchanged. Nothing is executed. Not decided: that Join+HasPrefix implies containment for every byte string (assumed: filepath.Join cleans), symlinks already present in the destination, whether charset transcoding can introduce separators (assumption recorded).",
-		run:   runC02,
+		run:         runC02,
 		assumptions: []string{
 			"filepath.Join returns a cleaned path, so a cleaned path with prefix destination+separator is inside destination",
 			"no symbolic link inside the destination points outside it before the extraction starts",
